@@ -293,10 +293,14 @@ const USER_NAMES: [&str; 6] = ["owner000", "user0001", "user0002", "user0003", "
 // denoms chosen so that concatenations collide: "uaura"+"uusd" == "uaurau"+"usd"
 // the last three are native denoms whose text equals the address of one of the cw20 tokens (equal display text,
 // different asset kind): cw-multi-test allocates contract0 = factory, contract1 = router, contract2..4 = tokens
-const DENOMS: [(&str, u8); 9] = [
+const DENOMS: [(&str, u8); 11] = [
     ("uaura", 6), ("uusd", 6), ("uaurau", 18), ("usd", 0), ("ibc/1F", 8), ("uaurauusd", 6),
     ("contract2", 6), ("contract3", 6), ("contract4", 6),
+    // two token-factory denoms of one creator: a 72-byte common prefix
+    ("factory/aura1qyqszqgpqyqszqgpqyqszqgpqyqszqgpqyqszqgpqyqszqgpqyqs0ewtp9/gold", 6),
+    ("factory/aura1qyqszqgpqyqszqgpqyqszqgpqyqszqgpqyqszqgpqyqszqgpqyqs0ewtp9/silver", 9),
 ];
+const ND: u64 = DENOMS.len() as u64;
 
 impl<'a> Env<'a> {
     fn aid(&mut self, s: &str) -> u64 {
@@ -859,8 +863,8 @@ impl Gen {
             2 if !c.is_empty() => { c.remove(k); }
             5 if !c.is_empty() => { c[k].1 = c[k].1 / 2; }
             6 if !c.is_empty() => { c[k].1 = c[k].1.saturating_mul(2); }
-            3 => { c.push((r.below(9), 1 + r.below(1000) as u128)); }
-            4 => { c.insert(0, (r.below(9), r.below(3) as u128)); }
+            3 => { c.push((r.below(ND), 1 + r.below(1000) as u128)); }
+            4 => { c.insert(0, (r.below(ND), r.below(3) as u128)); }
             _ => {}
         }
         // a chain validates coins as sorted and duplicate-free before a contract runs; cw-multi-test does not.
@@ -1041,8 +1045,16 @@ impl Gen {
                 let (d0, d1) = if sup == 0 || r0 == 0 || r1 == 0 {
                     (amt_rel(r, self.unit * 10), amt_rel(r, self.unit * 10))
                 } else {
-                    match r.below(4) {
-                        0 => (amt_rel(r, r0), amt_rel(r, r1)),
+                    match r.below(10) {
+                        0 | 1 => (amt_rel(r, r0), amt_rel(r, r1)),
+                        2 => {
+                            // a provision many times the size of the pool (supply grows by the same factor)
+                            let k = 10u128.pow(r.range(1, 6) as u32);
+                            let cap0 = e.bal(pm.a0, s) / 2;
+                            let cap1 = e.bal(pm.a1, s) / 2;
+                            let f = k.min(cap0 / r0.max(1)).min(cap1 / r1.max(1)).max(1);
+                            (r0.saturating_mul(f), r1.saturating_mul(f))
+                        }
                         _ => {
                             let f = 1 + r.below(500) as u128;
                             let skew = r.below(5) as u128;
@@ -1082,7 +1094,7 @@ impl Gen {
             }
             "donate" => {
                 let a = if r.chance(1, 2) { pm.a0 } else { pm.a1 };
-                let amt = amt_rel(r, self.unit);
+                let amt = if r.chance(1, 5) { e.bal(a, u) / (2 + r.below(50) as u128) } else { amt_rel(r, self.unit) };
                 let dst = if r.chance(1, 6) { e.router } else { pm.addr };
                 match a {
                     A::N(d) => Op::BankSend { s: u, d: dst, coins: vec![(d, amt)] },
@@ -1141,7 +1153,7 @@ impl Gen {
                 };
                 match first_offer {
                     A::N(d) => {
-                        let funds = match r.below(12) { 0 => vec![], 1 => vec![(d, amt), ((d + 1 + r.below(8)) % 9, 5)], _ => vec![(d, amt)] };
+                        let funds = match r.below(12) { 0 => vec![], 1 => vec![(d, amt), ((d + 1 + r.below(ND - 1)) % ND, 5)], _ => vec![(d, amt)] };
                         Op::ROps { s: u, funds, ops, min, to }
                     }
                     A::T(t) => {
@@ -1193,9 +1205,9 @@ impl Gen {
                 match r.below(7) {
                     0 => Op::FCfg { s, funds: vec![], owner: Some(s) },
                     1 => Op::FCreate { s, funds: vec![], a0: A::N(0), a1: A::T(e.tokens[2]), wl: vec![s], min0: 0, min1: 0, comm: None },
-                    2 => Op::FAdd { s, funds: vec![], denom: r.below(9), decimals: 7 },
+                    2 => Op::FAdd { s, funds: vec![], denom: r.below(ND), decimals: 7 },
                     3 => Op::FMig { s, funds: vec![], p: pm.addr },
-                    4 => Op::PairUpd { s, p: pm.addr, funds: vec![], denom: r.below(9), da: 9, db: 9 },
+                    4 => Op::PairUpd { s, p: pm.addr, funds: vec![], denom: r.below(ND), da: 9, db: 9 },
                     5 => Op::ROp { s, funds: vec![], offer: pm.a0, ask: pm.a1, to: Some(s) },
                     _ => Op::RAssert { s, funds: vec![], asset: pm.a1, prev: 0, min: 0, rcv: s },
                 }
@@ -1262,6 +1274,34 @@ pub fn run(w: &mut dyn Write, family: &str, nseq: u64, nsteps: u64, seed: u64) {
             _ => r.range(2, 5) as usize,
         };
         g.setup_pairs(&mut e, &mut r, npairs);
+        if (family == "liquidity" || family == "mixed") && seq % 3 == 0 {
+            // deep-and-wide pools: supplies grown by provisions many times the pool, reserves pushed toward
+            // 2^120 by donation — the regime where ratio arithmetic meets the 128/256-bit limits (C04, C20)
+            for pm in e.pairs.clone() {
+                let s = e.users[2];
+                for _ in 0..2 {
+                    let (r0, r1) = (e.bal(pm.a0, pm.addr), e.bal(pm.a1, pm.addr));
+                    if r0 == 0 || r1 == 0 { break; }
+                    // keep (r0 + d0)(r1 + d1) below 2^190: the pair's own overflow probe rejects more
+                    let prod_bits = (128 - r0.leading_zeros()) + (128 - r1.leading_zeros());
+                    let room = if prod_bits >= 188 { 0 } else { 1u128 << ((188 - prod_bits) / 2).min(40) };
+                    let f = (e.bal(pm.a0, s) / 3 / r0).min(e.bal(pm.a1, s) / 3 / r1).min(room);
+                    if f < 2 { break; }
+                    let (d0, d1) = (r0 * f, r1 * f);
+                    let funds = g.plain_funds(&[(pm.a0, d0), (pm.a1, d1)]);
+                    e.step(Op::Provide { s, p: pm.addr, funds, as0: pm.a0, am0: d0, as1: pm.a1, am1: d1, tol: None, rcv: None });
+                }
+                let donor = e.users[3];
+                let a = if r.chance(1, 2) { pm.a0 } else { pm.a1 };
+                let amt = e.bal(a, donor) / (2 + r.below(4) as u128);
+                if amt > 0 {
+                    match a {
+                        A::N(d) => { e.step(Op::BankSend { s: donor, d: pm.addr, coins: vec![(d, amt)] }); }
+                        A::T(t) => { e.step(Op::TokTransfer { t, s: donor, d: pm.addr, amt }); }
+                    }
+                }
+            }
+        }
         if family == "factory" {
             // many pairs over few denoms: the fan-out and the pagination need more than one page
             // (every fifth sequence: more than the maximum page size of 30)
